@@ -1,6 +1,7 @@
 package main
 
 import (
+	"regexp"
 	"encoding/json"
 	"go/token"
 	"go/types"
@@ -318,7 +319,104 @@ func runCheck(prop string, o checkOpts) *checkResult {
 	return res
 }
 
+// censusCheck: the for-all over "every registered datapoint type" is only as good as the list
+// of lemmas/contracts: one ground obligation per registered type saying that it is covered.
+func censusCheck(prop string, covered func(P *Program, sp *ssa.Package, typeName string) (bool, string)) func(P *Program, res *checkResult, o checkOpts) {
+	return func(P *Program, res *checkResult, o checkOpts) {
+		if o.only != "" {
+			return
+		}
+		for _, sp := range P.ssaPkgs {
+			if sp.Pkg.Name() != "dpt" {
+				continue
+			}
+			g, ok := sp.Members["dptTypes"].(*ssa.Global)
+			if !ok {
+				continue
+			}
+			ci := P.constMapOf(g)
+			var obls []*Obligation
+			mk := func(name, goal string, ok bool, detail string) {
+				ob := &Obligation{Name: "dpt#" + name, Kind: "census", Func: "dpt", Goal: goal, Props: []string{prop}, Trivial: true,
+					Solver: "evaluation", Pos: P.pos(g.Pos()), Result: "unsat"}
+				if !ok {
+					ob.Result, ob.Output = "sat", detail
+				}
+				obls = append(obls, ob)
+			}
+			if ci.err != "" {
+				mk("census.table", "the registry is a constant table", false, ci.err)
+			}
+			for _, en := range ci.entries {
+				tn := ""
+				if p, isP := en.vt.(*types.Pointer); isP {
+					if n, isN := p.Elem().(*types.Named); isN {
+						tn = n.Obj().Name()
+					}
+				}
+				okc, how := covered(P, sp, tn)
+				mk("census:"+tn, fmt.Sprintf("registered type %s (%s) is covered: %s", tn, en.key, how), okc, tn+" is registered but "+how)
+			}
+			res.groups = append(res.groups, groupObls(obls)...)
+		}
+	}
+}
+
+func hasFuncWithProp(P *Program, sp *ssa.Package, name, prop string) bool {
+	fn := sp.Func(name)
+	if fn == nil {
+		return false
+	}
+	ct := P.contracts.lookup(P, fn)
+	return ct != nil && hasProp(ct.Props, prop)
+}
+
+func methodWithProp(P *Program, sp *ssa.Package, typeName, method, prop string) bool {
+	tn, ok := sp.Pkg.Scope().Lookup(typeName).(*types.TypeName)
+	if !ok {
+		return false
+	}
+	for _, T := range []types.Type{tn.Type(), types.NewPointer(tn.Type())} {
+		ms := sp.Prog.MethodSets.MethodSet(T)
+		for i := 0; i < ms.Len(); i++ {
+			if ms.At(i).Obj().Name() == method {
+				fn := sp.Prog.MethodValue(ms.At(i))
+				if fn != nil && fn.Synthetic == "" {
+					if ct := P.contracts.lookup(P, fn); ct != nil && hasProp(ct.Props, prop) {
+						return true
+					}
+				}
+			}
+		}
+	}
+	return false
+}
+
+// types whose C06 round trip is decided by a stand-in instead of a lemma
+var c06ByStandin = regexp.MustCompile(`^DPT_(9|16)[0-9]{3}$`)
+
 var extraChecks = map[string]func(P *Program, res *checkResult, o checkOpts){
+	"C06": censusCheck("C06", func(P *Program, sp *ssa.Package, tn string) (bool, string) {
+		if c06ByStandin.MatchString(tn) {
+			return true, "stand-in (9.xxx exhaustive, 16.xxx bounded; the stand-ins check their own type lists against the registry)"
+		}
+		if hasFuncWithProp(P, sp, "lemmaC06_"+tn, "C06") {
+			return true, "lemmaC06_" + tn
+		}
+		return false, "has no round-trip lemma lemmaC06_" + tn
+	}),
+	"C07": censusCheck("C07", func(P *Program, sp *ssa.Package, tn string) (bool, string) {
+		if hasFuncWithProp(P, sp, "lemmaC07_"+tn, "C07") {
+			return true, "lemmaC07_" + tn
+		}
+		return false, "has no encoding lemma lemmaC07_" + tn
+	}),
+	"C08": censusCheck("C08", func(P *Program, sp *ssa.Package, tn string) (bool, string) {
+		if methodWithProp(P, sp, tn, "Unpack", "C08") {
+			return true, "contract on Unpack"
+		}
+		return false, "its Unpack has no C08 contract"
+	}),
 	"C19": func(P *Program, res *checkResult, o checkOpts) {
 		for _, sp := range P.ssaPkgs {
 			if sp.Pkg.Name() != "dpt" {
